@@ -49,6 +49,11 @@ func (m *Mem) Page(n int, pagesize int) ([]byte, error) {
 	buf := make([]byte, pagesize)
 	m.Bytes += pagesize
 	off := int64(n-1) * int64(pagesize)
+	if off < 0 {
+		// (a page number so large that the offset wraps: a file's ReadAt
+		// refuses a negative offset)
+		return buf, errors.New("readat: negative offset")
+	}
 	if n < 1 || off >= int64(len(m.Img)) {
 		return buf, io.EOF
 	}
